@@ -360,3 +360,6 @@ func descValue(v any) string {
 	}
 	return strings.TrimSpace(fmt.Sprintf("%T(%v)", v, v))
 }
+
+// ptrNil returns the typed nil pointer of a kind.
+func ptrNil(code int) any { return reflect.Zero(goTypeOf(code, true)).Interface() }
